@@ -12,6 +12,34 @@ HID = "dali.driver.hid"
 SER = "dali.driver.serial"
 
 
+# method names of hid.py / serial.py that the rules know (pinned tree): they
+# are analysed as units of the call graph.  Any other method reached through
+# self. (a helper introduced by a refactoring) is inlined into its callers
+# before the rules look at them.
+DRIVER_PRIMITIVES = (
+    "__init__", "_bus_watch", "_cmd", "_command_mode", "_handle_read",
+    "_hex", "_initialise_device", "_invoke", "_power_supply", "_reader",
+    "_reconnect", "_send_raw", "_seqnum", "_shutdown_device", "connect",
+    "disconnect", "power_supply", "register", "run_sequence", "send",
+    "unregister", "__del__", "__hash__", "__repr__", "_insert_checksum",
+    "_process_byte", "_process_dali_frame", "_process_error",
+    "_process_luba_event", "_process_luba_response_dali_frame_to_tx",
+    "_process_luba_response_device_info", "_process_luba_response_settings",
+    "_process_system_message", "add_handler", "connected", "connection_lost",
+    "connection_made", "data_received", "del_handler", "dev_inst_map",
+    "device_info", "distribute", "drivers_map", "is_connected", "is_parent",
+    "new_dali_rx_queue", "queue_rx_dali", "reset", "reset_dali_response",
+    "rx_state", "send_dali_command", "send_device_info_query",
+    "send_device_settings", "wait_connected", "wait_dali_raw_response")
+
+
+def expand_method(world, cls, fn):
+    """fn with calls of non-primitive helpers of the same class inlined."""
+    from .normal import normalise
+    return normalise(fn, world, cls.mod, cls, primitives=DRIVER_PRIMITIVES,
+                     aliases=True)
+
+
 def methods_of(world, modname):
     """[(ClassInfo, name, kind, fn)] for every method defined in modname."""
     out = []
